@@ -1,7 +1,9 @@
 from __future__ import annotations
 
 import logging
+import os
 import pathlib
+import shutil
 import sys
 from collections import defaultdict
 from collections.abc import Iterable
@@ -130,10 +132,20 @@ class SourceFile:
         self.source = self.filename.read_text("utf-8")
 
     def rewrite(self):
-        new_code = self.new_code()
+        new_code = self.new_code().encode()
 
-        with open(self.filename, "bw") as code:
-            code.write(new_code.encode())
+        # the new code is written into a temporary file, which replaces the old file.
+        # An error or a crash can not leave a half written file.
+        filename = pathlib.Path(os.path.realpath(self.filename))
+        tmp_filename = filename.with_name(filename.name + ".inline-snapshot.tmp")
+        try:
+            with open(tmp_filename, "bw") as code:
+                code.write(new_code)
+            shutil.copymode(filename, tmp_filename)
+            os.replace(tmp_filename, filename)
+        except BaseException:
+            tmp_filename.unlink(missing_ok=True)
+            raise
 
     def virtual_write(self):
         self.source = self.new_code()
